@@ -177,10 +177,15 @@ class C23(Prop):
         return {'be': be, 'blob': blob, 'chunk': chunk, 'kind': 'range', 'start': start, 'end': end, 'incl': rng.random() < 0.5}
 
     CREDS = ['anon', 'token', 'refresh']
+    LOCAL_NAMES = ['report#1.txt', 'query?x=1', 'part;v2', 'a%20b', 'a b', 'x&y=z', 'p+q', 'c,d', 'k:v', 'u@h', 'wow!', '$var', "it's", '(p)',
+                   'star*', '[brk]', '.hidden', '-dash', '\u00e9t\u00e9', '100%', 'r#', 'q?', 'semi;']
 
     def _norm(self, c, rng=None):
         if c['be'] == 'local':
             c['chunk'] = 0          # a real file never returns short: no delivery chunking to vary
+        if c['be'] == 'local' and rng is not None and 'name' not in c and rng.random() < 0.5:
+            c['name'] = rng.choice(self.LOCAL_NAMES)
+            c['url'] = rng.choice(['', '', 'file://', 'file://localhost'])
         if c['be'] == 'gs' and 'cred' not in c:
             c['cred'] = rng.choice(self.CREDS) if rng is not None else 'token'
         return c
@@ -259,9 +264,11 @@ class C23(Prop):
             if be == 'local':
                 scratch = tempfile.mkdtemp(prefix='verif-c23-')
                 assert not scratch.startswith('/repo') and not scratch.startswith('/verif')
-                url = os.path.join(scratch, 'obj')
-                with open(url, 'wb') as fh:
+                # the object's file name comes from a wide alphabet; it is addressed as a plain path or as a file:// URL
+                path = os.path.join(scratch, c.get('name', 'obj'))
+                with open(path, 'wb') as fh:
                     fh.write(data)
+                url = c.get('url', '') + path
                 fs = self.local
             elif be == 'gs':
                 cred = c.get('cred', 'token')
@@ -383,6 +390,8 @@ class C23(Prop):
         tags = [f"be={c['be']}", f"kind={c['kind']}", f'status={status}', f'size={min(size, 9)}{"+" if size > 9 else ""}']
         if c['be'] == 'gs':
             tags.append(f"gs-cred={c.get('cred', 'token')}")
+        if c['be'] == 'local' and c.get('name'):
+            tags.append('local-name-wide-alphabet' + ('+file-url' if c.get('url') else ''))
         if c['kind'] == 'open':
             ln = c['len']
             tags.append('len=none' if ln is None else 'len=0' if ln == 0 else
